@@ -271,7 +271,7 @@ func c35Exec(judgeReturn bool) func(c35Case, *pbt.Ctx) error {
 
 func TestC35(t *testing.T) {
 	const rule = "histories of 1..30 steps (dt, persistent, transient | observe) on p2p/security and p2p/trust with a test-owned clock (shim VerifIncrease/VerifInt); dt from {0, 1, 0..70, k*60+-1, 0..900, 900..1800, 1795..1805, 1801..200000} s; amounts from {0, 1..2, 1..120, 100..1e5, 2^20..2^30, powers of two} with each sum < 2^31; oracle = real-valued model of the documented rule, |impl - model| <= 1 + 1e-9 rel, score >= persistent sum, Int non-increasing between increases, each Increase raises the score by >= its persistent amount; non-trivial = >= 2 transient increments at different times; distinct by the whole history"
-	n := pbt.Per(200000, 12000000)
+	n := pbt.Per(200000, 48000000)
 	// Int() after every step, and the growth rule, on every history.
 	pbt.Run(t, "C35", rule, pbt.Options{Sub: "int", Checks: n,
 		MinClass: map[string]int{"age>1800": 100, "age>=60": 100, "dt=0": 100, "pkg:trust": 100, "pkg:security": 100}},
